@@ -1,4 +1,5 @@
 import Driver.Machine
+import Driver.Persist
 import CrdtModel.Model.MVReg
 import CrdtModel.Spec.MVRegSpec
 /-! Driver record for `MVReg<u64, u64>` – mirror of harness/src/sut/mvreg.rs. -/
@@ -64,8 +65,8 @@ def mvregOps (withSpec : Bool) : CrdtOps (MVReg Nat Nat) (MVOp Nat Nat) where
   validateMerge := fun _ _ => "ok"
   resetRemove := some MVReg.resetRemove
   eq := some MVReg.eq
-  persist := some (fun s => (.ok (jsonMVReg s), some s))
-  persistOp := some (fun op => (.ok (jsonMVOp op), some op))
+  persist := some (persistWith (mvregCodec natK natC))
+  persistOp := some (persistWith (mvOpCodec natK natC))
   spec := if withSpec then (fun _ K => mvSpec K) else fun _ _ => ""
 
 end Driver
